@@ -33,12 +33,7 @@ func toolPlan(c segCase, t tools) string {
 		panic(err)
 	}
 	args := []string{"-d", strconv.Itoa(int(c.durMS))}
-	switch c.mode {
-	case "lazy":
-		args = append(args, "-lazy")
-	case "mux":
-		args = append(args, "-m")
-	}
+	args = append(args, toolModeArgs(c.mode)...)
 	args = append(args, "in.mp4", "o")
 	stdout, stderr, rc, timedOut := runTool(t.segmenter, args, dir, 20*time.Second)
 	if timedOut {
@@ -105,7 +100,7 @@ func corr(seed uint64, n int, t tools) {
 		}
 	}
 	if t.segmenter != "" {
-		corrWriters(seed, n/3+1, t, &id)
+		corrWriters(seed, n/2+2, t, &id)
 	}
 	corrRest(seed, n, t, &id)
 }
